@@ -78,3 +78,22 @@ void h_pushers(void) {
   VASSERT(GHOST_BYTE_OF(&S) || ghost_k >= size0, "C06.push.keep: earlier contents are preserved");
   CANARY();
 }
+
+/* ---- WriteBuffer::ToString: Grow(1), then the terminator is written at End() — inside the allocation, contents kept ---- */
+typedef struct WriteBuffer { Stack stack_; } WriteBuffer;
+#undef Grow
+#undef Size
+#undef Capacity
+#undef Reserve
+#include "gen/WriteBuffer.ToString.inc"
+void h_ToString(void) {
+  MAKE_STACK();
+  WriteBuffer W; W.stack_ = S;
+  size_t size0 = S.buf_ ? (size_t)(S.top_ - S.buf_) : 0;
+  const char *p = WriteBuffer_ToString(&W);
+  VASSERT(p == W.stack_.buf_ && p != NULL, "C06.tostring.begin: ToString returns the beginning of the buffer");
+  VASSERT((size_t)(W.stack_.top_ - W.stack_.buf_) == size0 && p[size0] == 0, "C06.tostring.term: the terminator is written right behind the contents, which keep their length");
+  VASSERT(size0 < W.stack_.cap_, "C06.tostring.room: and it lies inside the capacity");
+  VASSERT(GHOST_BYTE_OF(&W.stack_) || ghost_k >= size0, "C06.tostring.keep: the contents are preserved");
+  CANARY();
+}
